@@ -59,6 +59,8 @@ class Gen:
         self.key_ev = {}
         self.budget = 60
         self.types = ["n", "n", "n", "b", "r"]
+        self.prog_level = {}     # handler programs: the event level they were generated for (posts go strictly higher)
+        self.regs = []           # (ev, key, pid, kw) of every generated registration
 
     def kw(self, maxn=2):
         r = self.r
@@ -99,6 +101,8 @@ class Gen:
             else:
                 acts.append(self.regop(level))
         self.progs[pid] = {"acts": acts, "ret": self.ret() if not is_cb else ["N"]}
+        if not is_cb:
+            self.prog_level[pid] = level
         return pid
 
     def post(self, level):
@@ -115,15 +119,58 @@ class Gen:
         self.next_key += 1
         self.key_ev[key] = ev
         cond = [r.randint(1, 4), r.randint(-1, 2)] if r.random() < 0.3 else None
-        return [key, r.randint(-3, 3) if r.random() < 0.85 else r.choice([-3, 3, 0]), self.kw(), cond,
-                self.new_prog(ev)]
+        # the same callback registered several times / for several events (bound methods compare equal by value)
+        shared = [p for p, lv in self.prog_level.items() if lv >= ev and self.progs[p] is not None]
+        pid = r.choice(shared) if shared and r.random() < 0.25 else self.new_prog(ev)
+        kw = self.kw()
+        self.regs.append((ev, key, pid, kw))
+        return [key, r.randint(-3, 3) if r.random() < 0.85 else r.choice([-3, 3, 0]), kw, cond, pid]
+
+    def absent_pid(self):
+        pid = self.next_pid
+        self.next_pid += 1
+        self.progs[pid] = {"acts": [], "ret": ["N"]}
+        self.prog_level[pid] = self.nev
+        return pid
+
+    def mutator(self, ev, self_pid):
+        """replace_handler / remove_handler / remove_handler_by_event / remove_handler_by_key aimed at event `ev`:
+        target = the caller itself, a peer registered for the same event (earlier or later in the list), or absent"""
+        r = self.r
+        peers = [g for g in self.regs if g[0] == ev]
+        x = r.random()
+        if x < 0.4 and self_pid is not None:
+            tgt = self_pid
+        elif x < 0.85 and peers:
+            tgt = r.choice(peers)[2]
+        else:
+            tgt = self.absent_pid()
+        y = r.random()
+        if y < 0.5:
+            key = self.next_key
+            self.next_key += 1
+            self.key_ev[key] = ev
+            z = r.random()
+            mine = [g[3] for g in self.regs if g[2] == tgt and g[3]]
+            kw = [] if z < 0.55 else (list(reversed(r.choice(mine))) if mine and z < 0.9 else self.kw())
+            self.regs.append((ev, key, tgt, kw))
+            return ["H", ev, [key, r.randint(-3, 3), kw, None, tgt]]
+        if y < 0.7:
+            return ["E", ev, tgt]
+        if y < 0.85:
+            return ["M", tgt]
+        ks = [g[1] for g in peers if g[2] == tgt]
+        return ["R", ev, r.choice(ks)] if ks else ["E", ev, tgt]
 
     def regop(self, level):
         r = self.r
         x = r.random()
-        if x < 0.45 or not self.key_ev:
+        if x < 0.35 or not self.key_ev:
             ev = r.randint(1, self.nev)
             return ["A", ev, self.handler(ev)]
+        if x < 0.6 and self.regs:
+            g = r.choice(self.regs)
+            return self.mutator(g[0], None)
         if x < 0.92:
             key = r.choice(list(self.key_ev))
             return ["R", self.key_ev[key], key]
@@ -138,6 +185,11 @@ class Gen:
                 boot.append(["A", ev, self.handler(ev)])
         r.shuffle(boot)
         stimuli.append({"ctx": "boot", "acts": boot})
+        # handlers that call a registry mutator while their own event is being dispatched
+        for ev, key, pid, _ in list(self.regs):
+            if r.random() < 0.3 and self.progs.get(pid) is not None:
+                acts = self.progs[pid]["acts"]
+                acts.insert(r.randint(0, len(acts)), self.mutator(ev, pid))
         for _ in range(r.randint(1, 4)):
             acts = []
             for _ in range(r.choice([1, 1, 2, 3])):
@@ -164,6 +216,7 @@ class Ref:
         self.cbs = []
         self.calls = 0
         self.flags = set()
+        self.current = None
 
     def act(self, a, children, in_dispatch):
         if a[0] == "P":
@@ -194,6 +247,24 @@ class Ref:
             self.reg[a[1]] = []
             if in_dispatch:
                 self.flags.add("reg-in-dispatch")
+        elif a[0] == "H":
+            _, ev, h = a
+            want = dict((k, v) for k, v in h[2])
+            self.reg[ev] = [g for g in self.reg.get(ev, [])
+                            if not (g[4] == h[4] and (not want or dict((k, v) for k, v in g[2]) == want))]
+            self.act(["A", ev, h], children, False)
+            if in_dispatch:
+                self.flags.add("mutator-in-dispatch")
+                if self.current is not None and self.current == ev:
+                    self.flags.add("mutator-own-event")
+        elif a[0] in ("M", "E"):
+            pid = a[-1]
+            for ev in (list(self.reg) if a[0] == "M" else [a[1]]):
+                self.reg[ev] = [g for g in self.reg.get(ev, []) if g[4] != pid]
+            if in_dispatch:
+                self.flags.add("mutator-in-dispatch")
+                if self.current is not None and (a[0] == "M" or self.current == a[1]):
+                    self.flags.add("mutator-own-event")
         else:
             raise InfraError("bad act %r" % (a,))
 
@@ -214,8 +285,10 @@ class Ref:
                 raise TooBig()
             self.trace.append(["c", key, ev, list(map(list, merged.items()))])
             p = self.progs[str(pid)]
+            self.current = ev
             for a in p["acts"]:
                 self.act(a, children, True)
+            self.current = None
             rt = p["ret"]
             result = {"N": None, "F": False, "T": True}.get(rt[0], None)
             if rt[0] == "I":
@@ -285,6 +358,27 @@ def norm_items(kwargs):
     return [[kid(k), norm_val(v)] for k, v in kwargs.items()]
 
 
+class HandlerObj:
+    """A handler callback.  Like bound methods (`obj.method == obj.method` although every access creates a new
+    object) two of them are equal when they stand for the same callback (program id); each one knows the registration
+    it was created for, so the trace can name it."""
+
+    def __init__(self, real, key, ev, pid):
+        self.real, self.key, self.ev, self.pid = real, key, ev, pid
+
+    def __call__(self, **kwargs):
+        return self.real.call_handler(self.key, self.ev, self.pid, kwargs)
+
+    def __eq__(self, other):
+        return isinstance(other, HandlerObj) and other.pid == self.pid
+
+    def __ne__(self, other):
+        return not self.__eq__(other)
+
+    def __hash__(self):
+        return hash(("HandlerObj", self.pid))
+
+
 class Real:
     """Runs a case on a real EventManager."""
 
@@ -298,28 +392,31 @@ class Real:
         self.depth = 0
         self.nested = False
         self.calls = 0
+        self.side = []      # for the oracle only: dispatch begin/end, calls, registry actions, in real order
 
     def make_handler(self, key, ev, pid):
-        def handler(**kwargs):
-            self.depth += 1
-            if self.depth > 1:
-                self.nested = True
-            self.calls += 1
-            if self.calls > 4 * CAP:
-                raise RuntimeError("harness cap: too many handler calls")
-            try:
-                self.trace.append(["c", key, ev, norm_items(kwargs)])
-                p = self.progs[str(pid)]
-                self.run_acts(p["acts"])
-                rt = p["ret"]
-                if rt[0] == "I":
-                    return rt[1]
-                if rt[0] == "D":
-                    return {kname(k): v for k, v in rt[1]}
-                return {"N": None, "F": False, "T": True}[rt[0]]
-            finally:
-                self.depth -= 1
-        return handler
+        return HandlerObj(self, key, ev, pid)
+
+    def call_handler(self, key, ev, pid, kwargs):
+        self.depth += 1
+        if self.depth > 1:
+            self.nested = True
+        self.calls += 1
+        if self.calls > 4 * CAP:
+            raise RuntimeError("harness cap: too many handler calls")
+        try:
+            self.trace.append(["c", key, ev, norm_items(kwargs)])
+            self.side.append(("c", key, ev, pid))
+            p = self.progs[str(pid)]
+            self.run_acts(p["acts"])
+            rt = p["ret"]
+            if rt[0] == "I":
+                return rt[1]
+            if rt[0] == "D":
+                return {kname(k): v for k, v in rt[1]}
+            return {"N": None, "F": False, "T": True}[rt[0]]
+        finally:
+            self.depth -= 1
 
     def make_cb(self, pid, sn):
         def callback(**kwargs):
@@ -346,11 +443,26 @@ class Real:
                 name = "ev%d" % ev + ("{%s==%d}" % (kname(cond[0]), cond[1]) if cond is not None else "")
                 k = self.ev.add_handler(name, self.make_handler(key, ev, pid), prio, **{kname(k): v for k, v in hkw})
                 self.keys.setdefault(key, []).append(k)
+                self.side.append(("r", a))
             elif a[0] == "R":
                 for k in self.keys.get(a[2], []):
                     self.ev.remove_handler_by_key(k)
+                self.side.append(("r", a))
             elif a[0] == "X":
                 self.ev.remove_all_handlers_for_event("ev%d" % a[1])
+                self.side.append(("r", a))
+            elif a[0] == "H":
+                _, ev, (key, prio, hkw, cond, pid) = a
+                k = self.ev.replace_handler("ev%d" % ev, self.make_handler(key, ev, pid), prio,
+                                            **{kname(k): v for k, v in hkw})
+                self.keys.setdefault(key, []).append(k)
+                self.side.append(("r", a))
+            elif a[0] == "M":
+                self.ev.remove_handler(HandlerObj(self, None, None, a[1]))
+                self.side.append(("r", a))
+            elif a[0] == "E":
+                self.ev.remove_handler_by_event("ev%d" % a[1], HandlerObj(self, None, None, a[2]))
+                self.side.append(("r", a))
             else:
                 raise InfraError("bad act %r" % (a,))
 
@@ -387,6 +499,11 @@ class Real:
 CONFIG = "switches:\n  s_c01:\n    number: 1\n"
 
 
+class Left(list):
+    """[len(event_queue), len(callback_queue)] at the end; .side = the oracle's side log"""
+    side = ()
+
+
 def run_real(case):
     """-> (per-stimulus traces, crash text or None, nested flag, leftovers)"""
     from harness.common.vmachine import VMachine, BootError
@@ -394,9 +511,22 @@ def run_real(case):
         vm = VMachine(CONFIG).start()
     except BootError as e:     # the machine itself depends on the event bus: a broken bus may not even boot
         return [], "boot: " + str(e)[:200], False, [0, 0]
+    from mpf.core.events import EventManager
+    o_pe = EventManager._process_event
     try:
         vm.align()
         real = Real(vm, case["progs"])
+
+        def spy(em, event, ev_type, callback=None, **kwargs):
+            mine = event.startswith("ev") and event[2:].isdigit()
+            if mine:
+                real.side.append(("d", int(event[2:]), ev_type))
+            try:
+                return o_pe(em, event, ev_type, callback, **kwargs)
+            finally:
+                if mine:
+                    real.side.append(("e",))
+        EventManager._process_event = spy
         per = []
         crash = None
         for st in case["stimuli"]:
@@ -407,9 +537,11 @@ def run_real(case):
             except Exception as e:   # an exception escaping the real code is an observation
                 crash = "%s: %s" % (type(e).__name__, str(e)[:200])
                 break
-        left = [len(vm.machine.events.event_queue), len(vm.machine.events.callback_queue)]
+        left = Left([len(vm.machine.events.event_queue), len(vm.machine.events.callback_queue)])
+        left.side = real.side
         return per, crash, real.nested, left
     finally:
+        EventManager._process_event = o_pe
         vm.stop()
 
 
@@ -428,6 +560,13 @@ def enc_act(a):
         return "A %d %d/%d/%s/%s/%d" % (a[1], key, prio, enc_kw(hkw), "-" if cond is None else "%d=%d" % tuple(cond), pid)
     if a[0] == "R":
         return "R %d %d" % (a[1], a[2])
+    if a[0] == "H":
+        key, prio, hkw, cond, pid = a[2]
+        return "H %d %d/%d/%s/-/%d" % (a[1], key, prio, enc_kw(hkw), pid)
+    if a[0] == "M":
+        return "M %d" % a[1]
+    if a[0] == "E":
+        return "E %d %d" % (a[1], a[2])
     return "X %d" % a[1]
 
 
@@ -514,6 +653,73 @@ def classify(got, exp):
     return "handler-kwargs"
 
 
+def delivery_monitor(case, side):
+    """The property as worded, on the implementation's own sequence of events: for every dispatched event the called
+    handlers are entries of the list as it was when the dispatch began (each at most once, in that = priority order),
+    and every such entry that has no condition and was not removed before its turn IS called (boolean events: up to the
+    first False).  The registry mirror is updated from the registry actions in the order the implementation ran them."""
+    progs = case["progs"]
+    reg = {}                       # ev -> [(key, prio, kw, cond, pid)] in call order
+
+    def apply(a):
+        if a[0] == "A" or a[0] == "H":
+            ev, h = a[1], a[2]
+            if a[0] == "H":
+                want = dict(map(tuple, h[2]))
+                reg[ev] = [g for g in reg.get(ev, []) if not (g[4] == h[4] and (not want or dict(map(tuple, g[2])) == want))]
+            lst = reg.setdefault(ev, [])
+            j = len(lst)
+            while j > 0 and lst[j - 1][1] < h[1]:
+                j -= 1
+            lst.insert(j, (h[0], h[1], tuple(map(tuple, h[2])), None if h[3] is None else tuple(h[3]), h[4]))
+        elif a[0] == "R":
+            reg[a[1]] = [g for g in reg.get(a[1], []) if g[0] != a[2]]
+        elif a[0] == "X":
+            reg[a[1]] = []
+        elif a[0] == "M":
+            for ev in list(reg):
+                reg[ev] = [g for g in reg[ev] if g[4] != a[1]]
+        elif a[0] == "E":
+            reg[a[1]] = [g for g in reg.get(a[1], []) if g[4] != a[2]]
+
+    cur = None      # [ev, type, snapshot, pointer, stopped]
+    for e in side:
+        if e[0] == "r":
+            apply(e[1])
+        elif e[0] == "d":
+            cur = {"ev": e[1], "ty": e[2], "snap": list(reg.get(e[1], [])), "i": 0, "stopped": False, "called": []}
+        elif e[0] == "c":
+            if cur is None or cur["ev"] != e[2]:
+                return "call-outside-dispatch", {"call": list(e)}
+            snap, i = cur["snap"], cur["i"]
+            j = i
+            while j < len(snap) and snap[j][0] != e[1]:
+                j += 1
+            if j == len(snap) or cur["stopped"]:
+                return "handler-not-in-snapshot-or-twice", {"event": cur["ev"], "called": cur["called"] + [e[1]],
+                                                            "registered_at_begin": [g[0] for g in snap]}
+            live = reg.get(cur["ev"], [])
+            for g in snap[i:j]:
+                if g[3] is None and g in live:
+                    return "handler-skipped", {"event": cur["ev"], "type": cur["ty"], "skipped": g[0],
+                                               "called": cur["called"] + [e[1]],
+                                               "registered_at_begin": [x[0] for x in snap]}
+            cur["i"] = j + 1
+            cur["called"].append(e[1])
+            if cur["ty"] == "boolean" and progs[str(e[3])]["ret"][0] == "F":
+                cur["stopped"] = True
+        elif e[0] == "e":
+            if cur is not None and not cur["stopped"]:
+                live = reg.get(cur["ev"], [])
+                for g in cur["snap"][cur["i"]:]:
+                    if g[3] is None and g in live:
+                        return "handler-skipped", {"event": cur["ev"], "type": cur["ty"], "skipped": g[0],
+                                                   "called": cur["called"],
+                                                   "registered_at_begin": [x[0] for x in cur["snap"]]}
+            cur = None
+    return None
+
+
 def oracle(case, per_real, crash, nested, left):
     """-> None or (signature, detail)"""
     try:
@@ -524,6 +730,9 @@ def oracle(case, per_real, crash, nested, left):
         return "crash", {"error": crash}
     if nested:
         return "nested-dispatch", {"what": "a handler or callback ran while another one was running"}
+    mon = delivery_monitor(case, getattr(left, "side", ()))
+    if mon is not None:
+        return mon
     flat = [o for tr in per_real for o in tr]
     seen = {}
     for o in flat:
@@ -623,11 +832,24 @@ def corpus():
                             "3": {"acts": [], "ret": ["I", 3]}},
                   "stimuli": [{"ctx": "boot", "acts": [["A", 1, H(1, 0, 1, None, [1, 1])], ["A", 1, H(2, 0, 3, [[1, 2]], [1, 2])]]},
                               {"ctx": "boot", "acts": [["P", 1, "n", None, [[1, 1]]], ["P", 1, "n", None, []]]}]})
+    # the "make sure I am registered once" idiom: a handler replace_handler()s itself / an already served peer / a
+    # waiting peer while its own event is dispatched; remove_handler(method) and remove_handler_by_event likewise.
+    # the lower-priority handlers must still be called once each, in order, for plain, boolean and relay events
+    for ty in ("n", "b", "r"):
+        cases.append({"progs": {"1": {"acts": [["H", 1, H(21, 3, 1)]], "ret": ["N"]},
+                                "2": {"acts": [["H", 1, H(22, 3, 1)], ["E", 1, 4]], "ret": ["T"]},
+                                "3": {"acts": [], "ret": ["N"]}, "4": {"acts": [["M", 2]], "ret": ["N"]},
+                                "9": {"acts": [], "ret": ["N"]}},
+                      "stimuli": [{"ctx": "boot", "acts": [["A", 1, H(1, 3, 1)], ["A", 1, H(2, 2, 2)], ["A", 1, H(3, 1, 3)],
+                                                           ["A", 1, H(4, 0, 4)], ["A", 1, H(5, 0, 3, [[1, 1]])]]},
+                                  {"ctx": "boot", "acts": [["P", 1, ty, 9, []], ["P", 1, ty, 9, []]]},
+                                  {"ctx": "delay", "acts": [["P", 1, ty, None, [[2, 2]]]]}]})
     return cases
 
 
 def is_nontrivial(ref):
-    return bool(ref.flags & {"post-in-dispatch", "reg-in-dispatch", "boolean-stop", "relay-update", "post-in-callback"})
+    return bool(ref.flags & {"post-in-dispatch", "reg-in-dispatch", "boolean-stop", "relay-update", "post-in-callback",
+                             "mutator-in-dispatch"})
 
 
 def one_case(ctx, model, case, sample=True):
